@@ -146,7 +146,9 @@ def run_schedule(server, sched, k, instances, results):
             elif kind == "malformed":
                 st, body = server.post(MALFORMED[k % len(MALFORMED)])
             else:
-                st, body = server.post(invalid_body(instances.get(r) or next(iter(instances.values())), k))
+                # (the invalid-body client takes part in every second schedule: k // 2 walks through all variants)
+                rec["variant"] = (k // 2) % 6
+                st, body = server.post(invalid_body(instances.get(r) or next(iter(instances.values())), k // 2))
             rec["status"] = st
             if kind == "valid" and st == 200:
                 try:
